@@ -20,6 +20,7 @@ structure TSpec where
   actions   : List (String × Nat) := []
   inject    : Nat := 0
   group     : Nat := 0
+  tick      : Nat := 0                     -- > 0: periodic signal (no SA_RESTART) while the parent waits
 deriving Inhabited
 
 structure DState where
@@ -80,6 +81,11 @@ def applyOp (d : DState) (op : List String) : Option DState :=
     match t.toNat?, g.toNat? with
     | some t, some g => if t < d.tests.size && g < 1000 then some { d with tests := d.tests.modify t (fun s => { s with group := g }) } else none
     | _, _ => none
+  | ["tick", t, us] =>
+    match t.toNat?, us.toNat? with
+    | some t, some us => if t < d.tests.size && 100 ≤ us && us ≤ 1000000 then
+        some { d with tests := d.tests.modify t (fun s => { s with tick := us }) } else none
+    | _, _ => none
   | ["cli"] => if !d.tests.isEmpty && !d.cli then some { d with cli := true } else none
   | ["nofork"] => if d.tests.isEmpty then some { d with nofork := true } else none
   | "real" :: t :: ph :: acts =>
@@ -104,6 +110,8 @@ structure TObs where
   conts    : Option Nat := none
   fails    : List String := []            -- message texts
   inrunner : Bool := false                -- the test's code ran inside the runner process
+  ticks    : Option Nat := none           -- handler invocations while the parent waited (tick scenario)
+  elapsed  : Nat := 0
 deriving Inhabited
 
 structure RunObs where
@@ -150,6 +158,10 @@ def readLine (r : RunObs) (l : List String) : RunObs :=
     | some w => r.upd l t (fun o => { o with rwaits := o.rwaits ++ [w], rlines := o.rlines ++ [" ".intercalate l] })
     | none => r.complain l
   | ["starved", t] => r.upd l t (fun o => { o with starved := true })
+  | ["ticks", t, n, ms] =>
+    match n.toNat?, ms.toNat? with
+    | some n, some ms => r.upd l t (fun o => { o with ticks := some n, elapsed := ms })
+    | _, _ => r.complain l
   | ["inrunner", t] => r.upd l t (fun o => { o with inrunner := true })
   | ["exitcode", c] => { r with exitcode := c.toNat? }
   | ["consumed", t, c] =>
@@ -318,6 +330,11 @@ def describeExp (es : List Exp) : String :=
 def retriesPromised : Nat := Gen.SepProcC.retryBound
 def retriesSlack : Nat := 2
 
+/-- tick scenario: from this many signal deliveries during one wait on, the parent must have given
+    up (generous margin over `retriesPromised + retriesSlack`: a few signals may land between two
+    waitpid calls instead of interrupting one) -/
+def tickDemand : Nat := max 100 (3 * (retriesPromised + retriesSlack))
+
 def expOfClass : StatusClass → List Exp
   | .exited 0 => []
   | .exited _ => [{ cls := .exitFail }]
@@ -398,6 +415,29 @@ def specTest (t : Nat) (s : TSpec) (o : TObs) : Except String Unit := do
       throw s!"test {t}: failures recorded {o.fails} but the events were {describeExp w.exp} (one failure per death event, none for a normal exit)"
     if o.conts.getD 0 != w.stops then
       throw s!"test {t}: {w.stops} stop events but {o.conts.getD 0} SIGCONT sent (a stopped child would never go on)"
+  else if s.tick > 0 && s.inject == 0 then
+    -- a real child while a periodic signal (handler without SA_RESTART) interrupts the parent's REAL waitpid:
+    -- interrupted waits must be retried a bounded number of times
+    let base := realExpected s.phase s.actions false
+    let eintrs := (o.rwaits.filter WaitOutcome.isEintr).length
+    let ticks := o.ticks.getD 0
+    let gaveUp := o.fails.any (OClass.giveUp.matchesText ·)
+    if gaveUp then
+      if !(matchSeq true [{ cls := .giveUp }] o.fails) || (o.fails.filter (OClass.giveUp.matchesText ·)).length != 1 then
+        throw s!"test {t}: interrupted waits: expected exactly one giving-up failure, got {o.fails}"
+      if eintrs ≤ retriesPromised then
+        throw s!"test {t}: the parent gave up after only {eintrs} interrupted waits (child lost)"
+    else
+      if eintrs > retriesPromised + retriesSlack then
+        throw s!"test {t}: {eintrs} interrupted waits were retried without giving up (unbounded retry)"
+      if ticks ≥ tickDemand then
+        throw s!"test {t}: the parent's wait was hit by {ticks} signals (handler without SA_RESTART) while its child was running, but it never gave up and saw only {eintrs} interrupted waits: interrupted waits are retried without bound below the bounded retry"
+      if !(matchSeq false base o.fails) then
+        throw s!"test {t}: real child ({s.phase} {s.actions}) recorded {o.fails}, expected {describeExp base}"
+      match o.rwaits.getLast? with
+      | some (.status st) =>
+        if !(classify st).terminal then throw s!"test {t}: the parent stopped waiting for a live child"
+      | _ => throw s!"test {t}: the parent never saw its child end"
   else
     -- real child: the scenario says what must be recorded, the recorded waits say how it ended
     let base := realExpected s.phase s.actions false
